@@ -71,8 +71,9 @@ def parse_output(out):
             continue
         if p[0] == "V" and len(p) == 5:
             V.append(dict(case=p[1], tag=p[2], spec=p[3], verdict=p[4]))
-        elif p[0] == "X" and len(p) == 7:
-            X[p[1]] = dict(cls=p[2], n=int(p[3]), offgrid=int(p[4]), stale=int(p[5]), unresolved=int(p[6]))
+        elif p[0] == "X" and len(p) in (7, 9):
+            X[p[1]] = dict(cls=p[2], n=int(p[3]), offgrid=int(p[4]), stale=int(p[5]), unresolved=int(p[6]),
+                           badframe=int(p[7]) if len(p) == 9 else 0, badup=int(p[8]) if len(p) == 9 else 0)
         elif p[0] == "S" and len(p) >= 6:
             snap = [int(x) for x in p[5].split()]
             acc = [tuple(int(y) for y in a.split(":")) for a in (p[6].split() if len(p) > 6 else [])]
@@ -351,6 +352,16 @@ def run(ctx):
                 ctx.violation("frame:stale-constants-len",
                               f"{xr['stale']} instructions ran with a loop-local constants_len different from the length of the constant "
                               "table behind constants_ptr (a frame switch did not refresh it)",
+                              {"profile": prof, "spec": d.get("spec"), "tag": d.get("tag")})
+            if xr.get("badframe"):
+                ctx.violation("frame:code-pointers-do-not-belong-to-callee",
+                              f"{xr['badframe']} instructions ran while the record of the running frame (what a return reloads: bytecode_ptr/len, "
+                              "constants_ptr/len) did not describe the buffers of the frame's own function object",
+                              {"profile": prof, "spec": d.get("spec"), "tag": d.get("tag"), "kind": "frame-record"})
+            if xr.get("badup"):
+                ctx.violation("frame:upvalue-vector-without-live-owner",
+                              f"{xr['badup']} instructions ran in a frame whose upvalues_ptr is not the upvalue vector of any closure in the heap "
+                              "(the running closure was collected)",
                               {"profile": prof, "spec": d.get("spec"), "tag": d.get("tag")})
             if xr["unresolved"]:
                 ctx.violation("frame:code-pointers-do-not-belong-to-callee",
